@@ -437,8 +437,18 @@ func runDKG(t *testing.T, rc *RunCtx) {
 	// same time; their messages interleave under the scheduler and both must end as consistent keys.
 	var outB *dkgOutcome
 	pathB := "Wallet 3/genB"
+	thB := th
 	if valid && n > 1 && tamper == "" && ch.Pick(3, 0) == 2 && rc.Param("noconc", "") == "" {
-		outB = c.spawnGenerate(c.Nodes[ch.Pick(len(c.Nodes), 0)], "client2", pathB, uint32(th), uint32(n))
+		if ch.Pick(2, 0) == 1 {
+			// ... or the very same name, asked for by another client through another instance with (where there is a
+			// choice) another threshold: at most one of the two can come true, and whichever does is what it says it is.
+			pathB = path
+			if n/2+1 < n {
+				thB = n/2 + 1 + (th-n/2)%(n-n/2)
+			}
+			rc.Stats.Inc("probe_two_generations_of_one_name_at_once", 1)
+		}
+		outB = c.spawnGenerate(c.Nodes[ch.Pick(len(c.Nodes), 0)], "client2", pathB, uint32(thB), uint32(n))
 		rc.Stats.Inc("concurrent_generations", 1)
 	}
 	outcome := s.Run()
@@ -510,6 +520,20 @@ func runDKG(t *testing.T, rc *RunCtx) {
 		if out.State != pb.ResponseState_SUCCEEDED {
 			rc.Stats.Inc("single_participant_failed", 1)
 		}
+	case outB != nil && pathB == path:
+		// Two generations of one name at once: whichever reports success is held to what it asked for.
+		if out.State == pb.ResponseState_SUCCEEDED {
+			rc.Stats.Inc("same_name_race_first_succeeded", 1)
+			s.Direct(func() { c.checkGenerated("C12", path, uint32(th), parts, out, s.Step) })
+		}
+		if len(rc.Viol) == 0 && outB.Done && outB.State == pb.ResponseState_SUCCEEDED {
+			rc.Stats.Inc("same_name_race_second_succeeded", 1)
+			s.Direct(func() { c.checkGenerated("C12", path, uint32(thB), parts, outB, s.Step) })
+		}
+		if out.State != pb.ResponseState_SUCCEEDED && (!outB.Done || outB.State != pb.ResponseState_SUCCEEDED) {
+			rc.Stats.Inc("same_name_race_both_failed", 1)
+		}
+		return
 	default:
 		if out.State != pb.ResponseState_SUCCEEDED {
 			// C12 says what must hold when a generation reports success; it does not promise that a valid
